@@ -172,11 +172,11 @@ Proof.
 Qed.
 
 (* an escaped line break: backslash, line feed, blank lines, leading white space of the next line *)
-Lemma branch_dq_brk k ind c t s : Forall wsq ind -> solid c ->
-  s_rest s = [92; 10] ++ nls k ++ ind ++ c :: t ->
-  flow_ns_branch s true = Ok (Some (after s ([92; 10] ++ nls k ++ ind), repeat [10] k)).
+Lemma branch_dq_brk (k : list str) ind c t s : Forall (Forall wsq) k -> Forall wsq ind -> solid c ->
+  s_rest s = [92; 10] ++ blw k ++ ind ++ c :: t ->
+  flow_ns_branch s true = Ok (Some (after s ([92; 10] ++ blw k ++ ind), repeat [10] (length k))).
 Proof.
-  intros Hind Hc Hr. cbn [app] in Hr.
+  intros Hk Hind Hc Hr. cbn [app] in Hr.
   rewrite (branch_dq_bslash s _ Hr). unfold scan_escape.
   rewrite (fwd1 s 92 _ ltac:(charfact) Hr). cbn [bind].
   pose proof (rest_after [92] s _ Hr) as Hr1.
@@ -187,8 +187,8 @@ Proof.
   rewrite (scan_line_break_lf _ _ Hr1). cbn [bind].
   pose proof (rest_after [10] _ _ Hr1) as Hr2.
   unfold scan_flow_scalar_breaks.
-  rewrite (flow_breaks_spec k _ _ [] ind c t Hind Hc Hr2).
-  2:{ unfold fuel_of. rewrite Hr2, app_length, nls_length. lia. }
+  rewrite (flow_breaks_spec k _ _ [] ind c t Hk Hind Hc Hr2).
+  2:{ unfold fuel_of. rewrite Hr2, app_length. pose proof (blw_length k) as Hbl. clear - Hbl. lia. }
   cbn [app]. rewrite <- !after_app. reflexivity.
 Qed.
 
@@ -206,7 +206,7 @@ Definition dq_el (d : dq_item) : qitem :=
               else if wsc c then QI [c] [c] QWs false else QI [c] [c] QOrd false
   | DEsc c => QI [92; c] (dq_meaning_item (DEsc c)) QSpecial false
   | DHex k ds => QI (92 :: k :: ds) [hexval ds] QSpecial false
-  | DBrk k ind => QI ([92; 10] ++ nls k ++ ind) (nls k) QSpecial true
+  | DBrk k ind => QI ([92; 10] ++ blw k ++ ind) (nls (length k)) QSpecial true
   end.
 
 Lemma solid_39 : solid 39. Proof. unfold solid. repeat split; reflexivity. Qed.
@@ -270,14 +270,18 @@ Proof.
     split; [constructor; [charfact|]; constructor; [exact H5 | apply is_hex_nocr; exact H6]|].
     intros s rest' Hr _. eexists. split; [apply (branch_dq_hex k ds len s rest' H1 H2 H3 H4 H5 H6 H7 Hr) | reflexivity].
   - (* escaped line break *)
-    cbn [wf_dq_item] in Hwf. cbn [q_kind q_print q_mean q_ns].
-    exists 92, ([10] ++ nls k ++ ind). split; [reflexivity|]. split; [reflexivity|]. split; [apply solid_92|].
+    cbn [wf_dq_item] in Hwf. apply andb_true_iff in Hwf as [Hwk Hwf]. cbn [q_kind q_print q_mean q_ns].
+    assert (Hks : Forall (Forall wsq) k).
+    { rewrite forallb_forall in Hwk. apply Forall_forall. intros w Hw. apply Forall_wsc_wsq0. auto. }
+    exists 92, ([10] ++ blw k ++ ind). split; [reflexivity|]. split; [reflexivity|]. split; [apply solid_92|].
     split.
-    { constructor; [charfact|]. constructor; [charfact|]. apply Forall_app. split; [apply nls_nocr|].
-      apply Forall_wsq_nocr. apply Forall_wsc_wsq0. exact Hwf. }
+    { constructor; [charfact|]. constructor; [charfact|]. apply Forall_app. split.
+      - clear - Hks. induction k as [|w k IH]; [constructor|]. inversion Hks; subst. rewrite blw_cons.
+        apply Forall_app. split; [apply Forall_wsq_nocr; assumption|]. constructor; [charfact | auto].
+      - apply Forall_wsq_nocr. apply Forall_wsc_wsq0. exact Hwf. }
     intros s rest' Hr Hsol. destruct (Hsol eq_refl) as (c & t & -> & Hc).
-    exists (repeat [10] k). split; [|apply concat_repeat_lf].
-    apply (branch_dq_brk k ind c t s (Forall_wsc_wsq0 _ Hwf) Hc). rewrite Hr, <- !app_assoc. reflexivity.
+    exists (repeat [10] (length k)). split; [|apply concat_repeat_lf].
+    apply (branch_dq_brk k ind c t s Hks (Forall_wsc_wsq0 _ Hwf) Hc). rewrite Hr, <- !app_assoc. reflexivity.
 Qed.
 
 (* ------------------------------------------------------------------ lines as element lists *)
@@ -308,7 +312,7 @@ Section Lines.
   Hypothesis H_starts : forall t, starts_ws t = match t with a :: _ => isws a | [] => false end.
 
   Definition line_els (t : list A) : list qel := map (fun a => QItem (f a)) t.
-  Definition more_els (more : list (str * nat * str * list A)) : list qel :=
+  Definition more_els (more : list (str * list str * str * list A)) : list qel :=
     flat_map (fun '(tws, k, ind, t) => QBrk tws k ind :: line_els t) more.
 
   Definition starts_brk (R : list qel) : Prop := match R with QBrk _ _ _ :: _ => True | _ => False end.
@@ -357,7 +361,8 @@ Section Lines.
     - cbn [wf_qmore] in Hq.
       apply andb_true_iff in Hq as [Hq Hrec]. apply andb_true_iff in Hq as [Hq Hst].
       apply andb_true_iff in Hq as [Hq Hwt]. apply andb_true_iff in Hq as [Hq Hind].
-      apply andb_true_iff in Hq as [Hq Hfi]. apply andb_true_iff in Hq as [Hq Htws].
+      apply andb_true_iff in Hq as [Hq Hfi]. apply andb_true_iff in Hq as [Hq Hkws].
+      apply andb_true_iff in Hq as [Hq Htws].
       apply andb_true_iff in Hq as [Hends Hne].
       apply negb_true_iff in Hends. apply negb_true_iff in Hst.
       destruct (IH false t Hrec Hwt) as [IH1 IH2].
@@ -366,6 +371,7 @@ Section Lines.
       + cbn [more_els flat_map]. fold (more_els more).
         apply (els_wf_line prev _ Hpa Hpadj); [|intros _; exact Hends | right; exact I].
         cbn [els_wf]. split; [apply Forall_wsc_wsq; exact Htws|]. split; [apply Forall_wsc_wsq; exact Hind|].
+        split; [rewrite forallb_forall in Hkws; apply Forall_forall; intros w Hw; apply Forall_wsc_wsq; auto|].
         split; [|exact IH1].
         destruct t as [|a t'].
         * cbn [line_els map app]. rewrite (IH2 eq_refl eq_refl). exact I.
@@ -388,7 +394,7 @@ Section Lines.
   Lemma print_more_els (pr : list A -> str) more :
     (forall t, print_els (line_els t) = pr t) ->
     print_els (more_els more) =
-    concat (map (fun '(tws, k, ind, t) => tws ++ [10] ++ nls k ++ ind ++ pr t) more).
+    concat (map (fun '(tws, k, ind, t) => tws ++ [10] ++ blw k ++ ind ++ pr t) more).
   Proof.
     intros Hpr. induction more as [|[[[tws k] ind] t] more IH]; [reflexivity|].
     cbn [more_els flat_map map concat]. fold (more_els more). rewrite print_els_app, IH.
@@ -397,7 +403,7 @@ Section Lines.
 
   Lemma mean_more_els (mn : list A -> str) more :
     (forall t, mean_els (line_els t) = mn t) ->
-    mean_els (more_els more) = concat (map (fun '(_, k, _, t) => fold_sep k ++ mn t) more).
+    mean_els (more_els more) = concat (map (fun '(_, k, _, t) => fold_sep (length k) ++ mn t) more).
   Proof.
     intros Hmn. induction more as [|[[[tws k] ind] t] more IH]; [reflexivity|].
     cbn [more_els flat_map map concat]. fold (more_els more). rewrite mean_els_app, IH.
